@@ -12,6 +12,7 @@ from ..cfg import CFG
 from ..dataflow import reaching_defs, solve_forward
 from ..guards import conditions_at
 from ..loader import AnchorError, Undecided
+from ..symres import Resolver
 
 EXPLANATION = (
     "Static necessary conditions for purity/repeatability of preprocessing, "
@@ -86,9 +87,10 @@ def r1_restart_from_raw(ctx):
                     norm(c.args[0]) == first:
                 defs = [cfg.nodes[d] for (v, d) in rd.get(n.id, ())
                         if v == c.func.id]
+                Rs = Resolver(fn)
                 if any(d.kind == "stmt" and isinstance(d.ast, ast.Assign)
-                       and isinstance(d.ast.value, ast.Call)
-                       and call_name(d.ast.value) == "get_func"
+                       and isinstance(Rs.resolve(d.ast.value), ast.Call)
+                       and call_name(Rs.resolve(d.ast.value)) == "get_func"
                        for d in defs):
                     stepcalls.append((n, c))
     ctx.floor("step invocations in preproc.apply", len(stepcalls), 1)
@@ -442,7 +444,9 @@ def r6_skip_test(ctx):
                   f"preproc.apply receives {k}={got.get(k)} instead of {v}: "
                   "the applied pipeline is not the requested one")
     # the guarding comparison
-    conds = conditions_at(applies[0].ast)
+    # (an inlined predicate duplicates the guarded block: one of the
+    # sites carries the comparison, the others the trivial cases)
+    conds = [a for ap in applies for a in conditions_at(ap.ast)]
     cmp_ok = False
     detail = "no comparison of remembered and requested pipeline found"
     rd = reaching_defs(cfg)
